@@ -202,7 +202,7 @@ def main():
             for o in shared:
                 if o[0] == "re" and o[1] in (p1, p2, p3):
                     rx[o[1]] = re.compile(o[1], o[2])
-            if len(rx) != 3:
+            if len(rx) != len({p1, p2, p3}):
                 r.setdefault("alts_mismatch", []).append([p3, "a pattern of the triple is not in the oracle table"])
             else:
                 for q in range(len(text) + 1):
